@@ -267,6 +267,11 @@ def divV (e : Engine) (a b : DV) : DV :=
     match e with
     | .sqlite => if y == 0 then .null else .int (x.tdiv y)
     | .duckdb => if y == 0 then (if x == 0 then .nan else .inf (x < 0)) else .real x y
+  | .inf s, b =>
+    -- arises only inside chains (an inner zero divisor on DuckDB): inf / finite keeps being infinite
+    match b.num? with
+    | some (bn, bd) => if bn == 0 then .inf s else .inf (s != ((bn < 0) != (bd < 0)))
+    | none => .err
   | a, b =>
     match a.num?, b.num? with
     | some (an, ad), some (bn, bd) =>
@@ -378,6 +383,89 @@ def qualifySem (w : Table → Row → Val) (cond : Row → B3) (proj : Row → R
     the original columns (`proj` sees only the first `width` columns) -/
 def qualifyRewritten (w : Table → Row → Val) (cond : Row → B3) (proj : Row → Row) (width : Nat) (t : Table) : Table :=
   project (fun r => proj (r.take width)) (select cond (project (fun r => r ++ [w t r]) t))
+
+-- ------------------------------------------------------------------------------------------ division inside flattened chains
+/-- an arithmetic tree of divisions as the parser builds it: operands (numbered), explicit Paren nodes, Div nodes.
+    `a / b / c` is `div (div a b) c`; `(a / b) / c` is `div (paren (div a b)) c` -/
+inductive DT where
+  | opnd (i : Nat)
+  | paren (t : DT)
+  | div (l r : DT)
+  deriving DecidableEq, Repr, Inhabited
+
+/-- generated text, abstracted -/
+inductive CEx where
+  | opnd (i : Nat)
+  | paren (e : CEx)
+  | castDouble (e : CEx)
+  | castBigint (e : CEx)
+  | nullif0 (e : CEx)
+  | div (a b : CEx)
+  deriving DecidableEq, Repr, Inhabited
+
+/-- what `is_type` sees: only an operand (a CAST in the text) carries a type; Div and Paren nodes are untyped -/
+def DT.ann (anns : Nat → Ann) : DT → Ann
+  | .opnd i => anns i
+  | _ => .none
+
+def DT.isDiv : DT → Bool
+  | .div _ _ => true
+  | _ => false
+
+mutual
+  /-- `Generator.sql(node)`: every Div reached THROUGH `sql()` runs `div_sql` (cast / NULLIF decisions), then
+      `Generator.binary` -/
+  def genT (dstTyped dstSafe : Bool) (n : DivNode) (anns : Nat → Ann) : DT → CEx
+    | .opnd i => .opnd i
+    | .paren t => .paren (genT dstTyped dstSafe n anns t)
+    | .div l r =>
+      -- `r.replace(NULLIF(r.copy(), 0))`: the new node is not a Div, its content goes back through sql()
+      let rOut : CEx :=
+        if !dstSafe && n.safe then .nullif0 (genT dstTyped dstSafe n anns r) else flat dstTyped dstSafe n anns r
+      if dstTyped && !n.typed then
+        if l.ann anns != .real && r.ann anns != .real then
+          -- `l.replace(cast(l.copy(), DOUBLE))`: likewise, the wrapped operand goes through sql() (and div_sql)
+          .div (.castDouble (genT dstTyped dstSafe n anns l)) rOut
+        else .div (flat dstTyped dstSafe n anns l) rOut
+      else if !dstTyped && n.typed then
+        if l.ann anns == .int && r.ann anns == .int then
+          .castBigint (.div (genT dstTyped dstSafe n anns l) (genT dstTyped dstSafe n anns r))
+        else .div (flat dstTyped dstSafe n anns l) rOut
+      else .div (flat dstTyped dstSafe n anns l) rOut
+  /-- a child inside `Generator.binary`'s loop: a node of the SAME type is flattened — printed operand by operand
+      WITHOUT going back through `div_sql` — anything else is generated normally -/
+  def flat (dstTyped dstSafe : Bool) (n : DivNode) (anns : Nat → Ann) : DT → CEx
+    | .div l r => .div (flat dstTyped dstSafe n anns l) (flat dstTyped dstSafe n anns r)
+    | .opnd i => .opnd i
+    | .paren t => .paren (genT dstTyped dstSafe n anns t)
+end
+
+/-- the source text itself (every Div is a plain `/`) -/
+def plainT : DT → CEx
+  | .opnd i => .opnd i
+  | .paren t => .paren (plainT t)
+  | .div l r => .div (plainT l) (plainT r)
+
+/-- the left spine `o₀ / o₁ / … / o_k` without parentheses -/
+def chainT : Nat → DT
+  | 0 => .opnd 0
+  | k + 1 => .div (chainT k) (.opnd (k + 1))
+
+def evalC (e : Engine) (vals : Nat → DV) : CEx → DV
+  | .opnd i => vals i
+  | .paren a => evalC e vals a
+  | .castDouble a => castDoubleV (evalC e vals a)
+  | .castBigint a => castBigintV e (evalC e vals a)
+  | .nullif0 a => nullif0V (evalC e vals a)
+  | .div a b => divV e (evalC e vals a) (evalC e vals b)
+
+def showCEx : CEx → String
+  | .opnd i => "o" ++ toString i
+  | .paren e => "(paren " ++ showCEx e ++ ")"
+  | .castDouble e => "(double " ++ showCEx e ++ ")"
+  | .castBigint e => "(bigint " ++ showCEx e ++ ")"
+  | .nullif0 e => "(nullif0 " ++ showCEx e ++ ")"
+  | .div a b => "(div " ++ showCEx a ++ " " ++ showCEx b ++ ")"
 
 -- ------------------------------------------------------------------------------------------ alias generation
 /-- `f"{base}_{i}"` -/
